@@ -131,13 +131,17 @@ def small_scope_all():
                 "for (i = 0; i < n; i++) { a = a + c; }", "while (n > 0) { b = a + c; }"]
     out = []
     for pi, pre in enumerate(prefixes):
-        for kind in ("for", "while", "if"):
+        for kind in ("for", "while", "if", "forif"):
             for i, s1 in enumerate(leaves):
                 for j, s2 in enumerate(leaves):
                     if kind == "for":
                         body = f"for (i = 0; i < n; i++) {{ {s1} {s2} }}"
                     elif kind == "while":
                         body = f"while (n > 0) {{ {s1} {s2} }}"
+                    elif kind == "forif":
+                        if pi in (1, 2):
+                            continue          # (kept to four prefixes: the branches' choices are independent whatever comes before)
+                        body = f"for (i = 0; i < n; i++) {{ if (c > 1) {{ {s1} }} else {{ {s2} }} }}"
                     else:
                         body = f"while (n > 0) {{ if (n > 1) {{ {s1} }} else {{ {s2} }} }}"
                     out.append((f"ss:{pi}:{kind}:{i}:{j}", f"int f(int a, int b, int c, int n, int i)\n{{\n  {pre}\n  {body}\n}}\n"))
